@@ -556,18 +556,29 @@ func (e *Env) assign(cur TVal, op string, val TVal) TVal {
 			e.oor("division")
 			return cur
 		}
+		if abs64(cur.Ms) > 1e11 || math.Abs(f) > 1e6 {
+			e.oor("RTIME scaling beyond the exactly representable range")
+			return cur
+		}
 		r := float64(cur.Ms) * f
 		if op == "/=" {
 			r = float64(cur.Ms) / f
 		}
-		if r != math.Trunc(r) || math.Abs(r) > 9e12 {
+		if r != math.Trunc(r) || math.Abs(r) > 1e11 {
 			e.oor("inexact RTIME scaling")
 			return cur
 		}
 		return TVal{T: TT, Ms: int64(r)}
 	}
 	if cur.T != val.T && (cur.T == TI || cur.T == TF || cur.T == TT) && (val.T == TI || val.T == TF || val.T == TT) {
+		// mixed operands go through binary floating point in any implementation: stay where that is exact
+		if cur.T == TI && abs64(cur.I) > 1<<40 || cur.T == TT && abs64(cur.Ms) > 1e11 || cur.T == TF && math.Abs(cur.F) > 1e9 {
+			e.oor("mixed operands beyond the exactly representable range")
+		}
 		val = e.conv(val, cur.T)
+		if val.T == TI && abs64(val.I) > 1<<40 || val.T == TT && abs64(val.Ms) > 1e11 || val.T == TF && math.Abs(val.F) > 1e9 {
+			e.oor("mixed operands beyond the exactly representable range")
+		}
 	}
 	switch cur.T {
 	case TI:
